@@ -18,6 +18,7 @@ Recognised expressions E:
                               overloaded operator whose result type is Eigen::CwiseBinaryOp<scalar_{sum,difference,product,
                               quotient}_op<double, double>, ..>  (the functor is checked against the operator)
     -E                        Eigen::CwiseUnaryOp<scalar_opposite_op<double>, ..>
+    E * s, s * E, E + s ...   (only with hook(scalars=True)) an operand of C++ type double: Eigen's broadcast constant
     (E), E.array(), E.matrix(), E.transpose()
                               coefficient-preserving adaptors (transpose only on a 1-D operand of rowwise())
     A * v   (Eigen::Product)  A a 2-D view leaf, v a 1-D view leaf: coefficient r is (row r of A) . v, delegated to the
